@@ -363,7 +363,8 @@ def run(ctx):
     # path of the anchored code breaks whatever is stated about that path)
     anchored = tuple(sorted({os.path.basename(x)[:-3] for x in _anchor_files(ctx.prop)}))
     rules = list(spec['rules']) + [lambda c: names.name_bound(c, anchored),
-                                   lambda c: names.arg_order(c, anchored)]
+                                   lambda c: names.arg_order(c, anchored),
+                                   lambda c: names.col_byname(c, anchored)]
     # shared mutable state in the anchored modules makes every for-all-inputs claim depend on the
     # calls made before (two seeds - C06 round 2, C05 round 5 - hid a work buffer in a class
     # constant): PUR-GLOBAL on the anchored modules, unless the property runs it already
